@@ -142,6 +142,8 @@ def _run_chunks(binary, lines, env=None, timeout=900, nproc=None):
     LAST_STDERR[:] = [e for (o, e, rc) in outs if e]
     for (o, e, rc), (_, ch) in zip(outs, procs):
         got = {}
+        if o and not o.endswith('\n'):
+            o = o[:o.rfind('\n') + 1]          # a killed process may leave a partial last line: drop it
         for ln in o.splitlines():
             sp = ln.split(' ', 1)
             if len(sp) == 2:
@@ -176,7 +178,7 @@ def run_go(lines, env_extra=None, race=False, timeout=900, nproc=None):
     return _run_chunks(HARNESS_BIN + ('-race' if race else ''), lines, env=env, timeout=timeout, nproc=nproc)
 
 
-def run_model(lines, timeout=900):
+def run_model(lines, timeout=2400):
     return _run_chunks(DRIVER_BIN, lines, timeout=timeout)
 
 
@@ -265,6 +267,12 @@ def lean_obligations(prop):
                     if re.search(pat, txt, flags=re.M):
                         hits.append('%s: %s' % (f, pat))
     res['source_scan_hits'] = hits
+    # thorough tier: re-check the compiled modules with the toolchain's independent checker
+    if tier() == 'thorough':
+        lc = subprocess.run(['lake', 'env', 'leanchecker'] + mods, cwd=LEAN, capture_output=True, text=True)
+        res['leanchecker'] = 'ok' if lc.returncode == 0 else ('FAILED: ' + (lc.stdout + lc.stderr)[-600:])
+        if lc.returncode != 0:
+            res['bad'].append('leanchecker')
     res['wall_s'] = round(time.time() - t0, 2)
     return res
 
@@ -330,6 +338,8 @@ def apply_obligations(res, prop):
                          'theorems': [t['name'] for t in ob['theorems']][:400],
                          'axioms_used': sorted({a for t in ob['theorems'] for a in t['axioms']}),
                          'source_scan_hits': ob.get('source_scan_hits', [])})
+    if 'leanchecker' in ob:
+        res.coverage['leanchecker'] = ob['leanchecker']
     if not ob['build_ok'] or ob['bad'] or ob.get('source_scan_hits') or n == 0:
         res.violation({'broken': 'theorem', 'name': ob['module'], 'bad_axioms': ob['bad'],
                        'build_msg': ob['build_msg'], 'source_scan_hits': ob.get('source_scan_hits', []),
